@@ -347,3 +347,40 @@ Definition order_free_b (L : N) (sums counts lastv : bool) (offered : list aset)
   (negb sums || (total pts =? zsum vals)%Z) &&
   (negb counts || (total_count pts =? N.of_nat (length vals))) &&
   (negb lastv || forallb (fun kp : aset * point => existsb (Z.eqb (fst (snd kp))) vals) pts).
+
+(** * Explicit-bucket histograms at bucket level
+    For the values [vs] that reach one attribute set (after filter and limit): bucket j holds the number of
+    values whose bucket index is j, count and sum are theirs, min / max are their minimum / maximum. *)
+Definition count_in (bounds : list Z) (j : nat) (vs : list Z) : N :=
+  N.of_nat (length (filter (fun v => Nat.eqb (bidx bounds v) j) vs)).
+Definition bucket_counts (bounds : list Z) (vs : list Z) : list N :=
+  map (fun j => count_in bounds j vs) (seq 0 (S (length bounds))).
+Definition zmin_list (vs : list Z) : Z := match vs with [] => 0%Z | v :: r => fold_left Z.min r v end.
+Definition zmax_list (vs : list Z) : Z := match vs with [] => 0%Z | v :: r => fold_left Z.max r v end.
+
+Definition hdescribes (bounds : list Z) (nosum : bool) (vs : list Z) (hv : hval) : Prop :=
+  length (h_counts hv) = S (length bounds) /\
+  (forall j, nth j (h_counts hv) 0 = count_in bounds j vs) /\
+  h_count hv = N.of_nat (length vs) /\
+  h_total hv = (if nosum then 0 else zsum vs)%Z /\
+  h_min hv = zmin_list vs /\ h_max hv = zmax_list vs.
+
+(** Every reported histogram point is exactly the description of the measurements destined to its set. *)
+Definition hplaced (c : scfg) (bounds : list Z) (w : window) (pts : hpoints) : Prop :=
+  NoDup (map fst pts) /\
+  forall k, match vals_at k (routed c w) with
+            | [] => glookup k pts = None
+            | vs => exists hv, glookup k pts = Some hv /\ hdescribes bounds (hist_nosum c) vs hv
+            end.
+
+(** Per bucket, the counts of all reported points (kept sets and the overflow set) add up to the number of
+    measurements of the window that fall into the bucket: no measurement changes bucket or is lost by
+    the limit or by a filter merge. *)
+Definition bucket_total (j : nat) (pts : hpoints) : N :=
+  fold_right N.add 0 (map (fun kp => nth j (h_counts (snd kp)) 0) pts).
+Definition buckets_conserved (bounds : list Z) (w : window) (pts : hpoints) : Prop :=
+  forall j, bucket_total j pts = count_in bounds j (map snd w).
+
+(** Boolean form used on observations: (bucket counts, min, max) of one point against the values routed to it. *)
+Definition hdetail_ok (bounds : list Z) (vs : list Z) (counts : list N) (mn mx : Z) : bool :=
+  list_eqb N.eqb counts (bucket_counts bounds vs) && (mn =? zmin_list vs)%Z && (mx =? zmax_list vs)%Z.
